@@ -387,8 +387,13 @@ func init() {
 			}
 			rc.MaxFaults = 1 + r.IntN(6)
 			rc.Ctl.TCPConfigMap = r.IntN(5) == 0
+			var initial map[string]string
+			if r.IntN(3) == 0 {
+				// the state of the servers is read from the outgoing process (show servers state) before each reload
+				initial = map[string]string{"load-server-state": "true"}
+			}
 			rc.World, rc.Ops = GenerateRun(seed, GenOptions{Sparse: r.IntN(3) == 0, ExcludeIngressKeys: alwaysExcludedIngressKeys, MinOps: mn, MaxOps: mx, TCPConfigMap: rc.Ctl.TCPConfigMap,
-				QuiesceEvery: 0, KeysPerRun: pickInt(r, 3, 7)})
+				QuiesceEvery: 0, KeysPerRun: pickInt(r, 3, 7), InitialGlobal: initial})
 			// faults stop, no further cluster change happens, then the convergence check
 			last := rc.Ops[len(rc.Ops)-1]
 			rc.Ops = append(rc.Ops[:len(rc.Ops)-1], Op{Type: "faults_off"}, last)
